@@ -30,6 +30,10 @@ pub struct Case {
     /// another connection), then execs the other program under the same pid, then the case runs
     #[serde(default)]
     pub morph: bool,
+    /// the request target is written in absolute form, `http://<authority><origin form>`; the authority is the recorded
+    /// destination (0) or ANOTHER endpoint (1..): what is authorised and where it goes stay those of the connection
+    #[serde(default)]
+    pub abs_form: Option<u8>,
 }
 
 pub fn dest_sel() -> impl Strategy<Value = DestSel> {
@@ -66,9 +70,9 @@ pub fn strategy() -> impl Strategy<Value = Case> {
         prop::option::weighted(0.85, rec()),
         gen::greq_with(provision_or(gen::gurl())),
         prop_oneof![3 => Just(vec![]), 2 => prop::collection::vec(gen::greq_with(provision_or(gen::gurl())), 1..4)],
-        (prop::option::weighted(0.25, (prop::option::weighted(0.8, gen::gdoc()), prop::option::weighted(0.8, gen::gdoc()), prop::option::weighted(0.6, gen::gdoc()))), prop::option::weighted(0.12, prop::sample::select(vec![-1i32, -22, i32::MIN])), prop::bool::weighted(0.12), prop::option::weighted(0.1, (any::<bool>(), gen::case_mask()))),
+        (prop::option::weighted(0.25, (prop::option::weighted(0.8, gen::gdoc()), prop::option::weighted(0.8, gen::gdoc()), prop::option::weighted(0.6, gen::gdoc()))), prop::option::weighted(0.12, prop::sample::select(vec![-1i32, -22, i32::MIN])), prop::bool::weighted(0.12), prop::option::weighted(0.1, (any::<bool>(), gen::case_mask())), prop::option::weighted(0.15, 0u8..6)),
     )
-        .prop_map(|(ws, imds, hostga, mut rec, mut req, more, (later_rules, admin_raw, morph, exempt_shape))| {
+        .prop_map(|(ws, imds, hostga, mut rec, mut req, more, (later_rules, admin_raw, morph, exempt_shape, abs_form))| {
             // the two signature-exempt uploads take their own route through the proxy; they are mediated like everything else
             if let Some((telemetry, mask)) = exempt_shape {
                 if telemetry {
@@ -107,7 +111,7 @@ pub fn strategy() -> impl Strategy<Value = Case> {
                     }
                 }
             }
-            Case { ws, imds, hostga, rec, req, more, later_rules, admin_raw, morph }
+            Case { ws, imds, hostga, rec, req, more, later_rules, admin_raw, morph, abs_form }
         })
 }
 
@@ -139,7 +143,7 @@ pub fn strategy_c03() -> impl Strategy<Value = Case> {
     })
 }
 
-pub const RULE: &str = "generator: rule set (or none) per endpoint installed through the public set_*_rules x attribution record (12% of the non-elevated records carry a negative elevation field, 'status unknown'; 10% of the requests are the two signature-exempt uploads (PUT /vmAgentLog, POST /machine/?comp=telemetrydata, any letter case); in 12% of the cases the caller is a process that has been seen by the agent before and has since replaced its image with exec - same pid, another executable and command line; 85%: uid from the generated passwd, pid of a live helper process, elevation flag = (uid == 0) or independent, original destination in {WireServer, HostGAPlugin, IMDS, the proxy itself, another local address, 168.63.129.16:81, an address nobody listens on}) or no record (direct connection) x request (method, URL incl. '..' / %2e%2e / '/provision', URL and caller mostly bound to the destination's rule set, header set, body as Content-Length or chunked). The raw client binds its source port, the record is placed in the stand-in audit map for that port, then it connects to the real listener. oracle: bytes counted at the mock hosts and the client status against the reference (record present AND no literal '..' in the path AND reference authorizer != Block). non-trivial: record present, destination's rule set present and not disabled, and the reference decision depends on the rule set (flipping the default access or the caller's elevation changes it) - or one of the refusal classes with a record present (traversal, self, non-elevated to a root-only endpoint, enforced denial). 40% of the cases carry 1-3 further requests on the same keep-alive connection and 25% of those replace the rule sets after the first request; every request is judged on its own against the rules in force when it is sent. distinct by hash of the case.";
+pub const RULE: &str = "generator: rule set (or none) per endpoint installed through the public set_*_rules x attribution record (12% of the non-elevated records carry a negative elevation field, 'status unknown'; 15% of the request targets are written in absolute form, naming the recorded destination or another endpoint (the decision and the destination stay those of the connection); 10% of the requests are the two signature-exempt uploads (PUT /vmAgentLog, POST /machine/?comp=telemetrydata, any letter case); in 12% of the cases the caller is a process that has been seen by the agent before and has since replaced its image with exec - same pid, another executable and command line; 85%: uid from the generated passwd, pid of a live helper process, elevation flag = (uid == 0) or independent, original destination in {WireServer, HostGAPlugin, IMDS, the proxy itself, another local address, 168.63.129.16:81, an address nobody listens on}) or no record (direct connection) x request (method, URL incl. '..' / %2e%2e / '/provision', URL and caller mostly bound to the destination's rule set, header set, body as Content-Length or chunked). The raw client binds its source port, the record is placed in the stand-in audit map for that port, then it connects to the real listener. oracle: bytes counted at the mock hosts and the client status against the reference (record present AND no literal '..' in the path AND reference authorizer != Block). non-trivial: record present, destination's rule set present and not disabled, and the reference decision depends on the rule set (flipping the default access or the caller's elevation changes it) - or one of the refusal classes with a record present (traversal, self, non-elevated to a root-only endpoint, enforced denial). 40% of the cases carry 1-3 further requests on the same keep-alive connection and 25% of those replace the rule sets after the first request; every request is judged on its own against the rules in force when it is sent. distinct by hash of the case.";
 
 pub fn dest_of(d: DestSel) -> Dest {
     let (ip, port) = d.addr();
@@ -260,7 +264,25 @@ fn eval_one(rig: &Rig, case: &Case, req: &GReq, rules: &(Option<GDoc>, Option<GD
         stats.class("target-not-a-valid-uri");
         return (Outcome::Pass, true);
     }
-    let wire = req.wire(&target, &[]);
+    let wire_target = match (case.abs_form, target.starts_with('/')) {
+        (Some(a), true) => {
+            let authority = match (a % 6, case.rec.as_ref()) {
+                (0, Some(r)) => {
+                    let (ip, port) = r.dest.addr();
+                    format!("{}.{}.{}.{}:{}", ip[0], ip[1], ip[2], ip[3], port)
+                }
+                (1, _) => "169.254.169.254".to_string(),
+                (2, _) => "168.63.129.16".to_string(),
+                (3, _) => "168.63.129.16:32526".to_string(),
+                (4, _) => "127.0.0.1:3080".to_string(),
+                _ => "10.99.0.1:8080".to_string(),
+            };
+            stats.class(if a % 6 == 0 { "request:absolute-form(own-destination)" } else { "request:absolute-form(another-endpoint-named)" });
+            format!("http://{}{}", authority, target)
+        }
+        _ => target.clone(),
+    };
+    let wire = req.wire(&wire_target, &[]);
     let before = rig.mock.bytes_by_listener();
     let _ = rig.mock.take_requests();
     let send_err = conn.send(&wire).err().map(|e| e.to_string());
@@ -280,17 +302,18 @@ fn eval_one(rig: &Rig, case: &Case, req: &GReq, rules: &(Option<GDoc>, Option<GD
     let requests = rig.mock.take_requests();
     let obs = Observed { status: status_opt, delta, requests, client_error, response: resp.ok() };
     let reusable = req.body.is_empty() && obs.status.is_some();
-    let o = judge(rig, case, req, &target, dest_rules, &claims, &obs, index, stats);
+    let o = judge(rig, case, req, &target, &wire_target, dest_rules, &claims, &obs, index, stats);
     (o, reusable)
 }
 
 #[allow(clippy::too_many_arguments)]
-fn judge(_rig: &Rig, case: &Case, req: &GReq, target: &str, dest_rules: Option<&GDoc>, claims: &Option<crate::gen::GClaims>, obs: &Observed, index: usize, stats: &mut Stats) -> Outcome {
+fn judge(_rig: &Rig, case: &Case, req: &GReq, target: &str, wire_target: &str, dest_rules: Option<&GDoc>, claims: &Option<crate::gen::GClaims>, obs: &Observed, index: usize, stats: &mut Stats) -> Outcome {
     let target = target.to_string();
     let total_up: u64 = obs.delta.values().sum();
     let (path, _) = crate::refmodel::rbac::split_target(&target);
     let traversal = path.contains("..");
-    let provision = target == "/provision";
+    // the proxy's own status endpoint is the exact origin-form target "/provision" (an absolute-form spelling of it is an ordinary request)
+    let provision = wire_target == "/provision";
 
     // ---- reference ----
     let mut expect_status: Vec<u16> = Vec::new();
@@ -390,7 +413,7 @@ fn judge(_rig: &Rig, case: &Case, req: &GReq, target: &str, dest_rules: Option<&
                 if obs.requests.len() != 1 || obs.requests[0].listener != l {
                     return Outcome::fail("mediation:authorized-request-not-relayed", format!("expected exactly one request at {}, got {:?}; status {}", l, obs.requests.iter().map(|q| (&q.listener, &q.method, &q.target)).collect::<Vec<_>>(), status));
                 }
-                if obs.requests[0].method != req.method || obs.requests[0].target != target {
+                if obs.requests[0].method != req.method || (obs.requests[0].target != target && obs.requests[0].target != wire_target) {
                     return Outcome::fail("mediation:relayed-request-line-differs", format!("sent {} {} host saw {} {}", req.method, target, obs.requests[0].method, obs.requests[0].target));
                 }
                 if status != 200 {
